@@ -23,6 +23,19 @@ pub fn workload(ctx: &Ctx, n_generated: usize, ev: &mut Evidence) -> Vec<Case> {
             cases.push(Case { program: c.program, event: c.event });
         }
     }
+    // maintainers' examples (and their parameter variants) with their first literal stored in the event first:
+    // every stdlib function gets a typed path where it expects a typed argument (also the C14-exempt ones: the
+    // double control run keeps them out of the equality oracle, the panic oracle still applies)
+    let mut examples = corpus::corpus_a();
+    examples.extend(corpus::corpus_a_param_variants().into_iter().map(|mut c| {
+        c.label = format!("A:{}", &c.label[2..]);
+        c
+    }));
+    for c in crate::c14::typed_lifted(&examples) {
+        if !c.heavy() {
+            cases.push(Case { program: c.program, event: c.event });
+        }
+    }
     ev.extra.insert("corpus_programs".into(), (cases.len() as u64).into());
     let mut rng = Rng::new(crate::prng::mix(ctx.seed, 0xC17));
     let mut used = [0u32; genprog::N_PRODUCTIONS];
